@@ -94,8 +94,10 @@ def check_files(run, case, path, res):
     for ev in res.found_events:
         segs = ev[-1]
         if ev[0] == 'E':
-            mine_e = [oracles.lower_keep_length(s_) for s_, l in segs if l == 'E']
-            if sorted(ev[2]) != sorted(mine_e) or sorted(ev[3]) != sorted(m.split('@', 1)[1] for m in mine_e):
+            # str.lower() is context sensitive for GREEK CAPITAL SIGMA (final vs medial form): both spellings are the same lower-case text
+            ns = lambda x_: x_.replace('ς', 'σ')
+            mine_e = [ns(oracles.lower_keep_length(s_)) for s_, l in segs if l == 'E']
+            if sorted(map(ns, ev[2])) != sorted(mine_e) or sorted(map(ns, ev[3])) != sorted(m.split('@', 1)[1] for m in mine_e):
                 run.violation(f'e-mail items counted for {ev[1]!r} ({ev[2]}, providers {ev[3]}) are not the lower-cased E segments / their part after the first @', case, observed=segs); return False
         else:
             mine_w = [s_ for s_, l in segs if l == 'W']
